@@ -82,7 +82,8 @@ def gen_case(ctx, rng):
     else:
         p = {"x1": dq(0, 6), "x2": dq(0, 6), "y1": dq(0, 6), "y2": dq(0, 6)}
         loc = None
-    return {"shape": kind, "params": p, "loc": loc, "data": data, "ranking": ranking, "_np_scalars": rng.random() < 0.25}
+    return {"shape": kind, "params": p, "loc": loc, "data": data, "ranking": ranking, "_np_scalars": rng.random() < 0.25,
+            "_other_ctor_data": rng.random() < 0.35}
 
 
 def build_data(case):
@@ -130,6 +131,16 @@ def run_real(case):
             kw["axis"] = ax
     if case["loc"] is not None:
         p["loc"] = case["loc"]
+    if case.get("_other_ctor_data"):
+        # the shape object was built for another survey of the same kind (other coordinates / other snapshots); the
+        # coordinates that count are those of the data handed to get_constraint_indices
+        if case["data"]["kind"] == "df":
+            other = data.copy()
+            for col in ("x", "y", "z"):
+                other[col] = other[col] * 2 + 3
+        else:
+            other = np.flipud(np.vstack([data, data])) + 1.0
+        kw = dict(kw, data=other)
     obj = cls(**p, **kw)
     idx, rank = obj.get_constraint_indices(np.array(case["ranking"]), data)
     return [int(i) for i in idx]
